@@ -155,16 +155,20 @@ def parseDecimal (s : Str) : Option (Bool × Nat × Nat) :=
           | _ => ((1 : Int), r')
         if allDigits ds then some (sg * (digitsToNat ds : Int)) else none
       else none
+  -- exponents far outside the double range are clamped (same rounded result: ±inf or ±0), so that the
+  -- model never raises 10 to an astronomically large power
+  let mk (mant : Nat) (x' : Int) : Bool × Nat × Nat :=
+    let nd : Int := (toString mant).length
+    if mant = 0 then (neg, 0, 1)
+    else if x' > 400 then (neg, 10 ^ 400, 1)
+    else if x' + nd < -400 then (neg, 1, 10 ^ 400)
+    else if x' ≥ 0 then (neg, mant * 10 ^ x'.toNat, 1) else (neg, mant, 10 ^ (-x').toNat)
   if !allDigits ip then none else
   match fp, ex with
   | some f, some x =>
     if !allDigits f then none else
-    let mant := digitsToNat (ip ++ f)
-    let x' := x - (f.length : Int)
-    if x' ≥ 0 then some (neg, mant * 10 ^ x'.toNat, 1) else some (neg, mant, 10 ^ (-x').toNat)
-  | none, some x =>
-    let mant := digitsToNat ip
-    if x ≥ 0 then some (neg, mant * 10 ^ x.toNat, 1) else some (neg, mant, 10 ^ (-x).toNat)
+    some (mk (digitsToNat (ip ++ f)) (x - (f.length : Int)))
+  | none, some x => some (mk (digitsToNat ip) x)
   | _, none => none
 
 /-- `float(text)` as a `Num` (`d = 0` for ±inf); `none` = `ValueError`. -/
